@@ -1354,7 +1354,9 @@ func (sc *serverConn) handleFrame(strm *Stream, fr *FrameHeader) error {
 
 		win := int64(fr.Body().(*WindowUpdate).Increment())
 		if win == 0 {
-			return NewGoAwayError(ProtocolError, "window increment of 0")
+			// on a stream this is a stream error, and only on the connection
+			// window a connection error (RFC 7540 6.9)
+			return NewResetStreamError(ProtocolError, "window increment of 0")
 		}
 
 		if atomic.AddInt64(&strm.window, win) > 1<<31-1 {
@@ -1546,14 +1548,24 @@ func (sc *serverConn) requestField(strm *Stream, req *fasthttp.Request, hf *Head
 	case bytes.Equal(k, StringContentType):
 		req.Header.SetContentTypeBytes(v)
 	case bytes.Equal(k, StringContentLength):
-		if n, perr := parseUint(v); perr == nil {
-			if sc.maxRequestBodySize > 0 && n > sc.maxRequestBodySize {
-				return NewResetStreamError(EnhanceYourCalm, "request body is too large")
-			}
-
-			strm.contentLength = n
-			strm.hasContentLength = true
+		n, perr := parseUint(v)
+		if perr != nil {
+			// Not a number, or too big to be one: the request is malformed
+			// (RFC 7540 8.1.2.6), and passing it on would leave the handler
+			// with a body length nobody has checked.
+			return NewResetStreamError(ProtocolError, "invalid content-length")
 		}
+
+		if strm.hasContentLength && n != strm.contentLength {
+			return NewResetStreamError(ProtocolError, "conflicting content-length fields")
+		}
+
+		if sc.maxRequestBodySize > 0 && n > sc.maxRequestBodySize {
+			return NewResetStreamError(EnhanceYourCalm, "request body is too large")
+		}
+
+		strm.contentLength = n
+		strm.hasContentLength = true
 		req.Header.AddBytesKV(k, v)
 	default:
 		req.Header.AddBytesKV(k, v)
